@@ -1513,16 +1513,12 @@ def run_bitmap(seed, mut, variant):
     def use(bm):
         if bm is None:
             return None
-        out = [len(bm.entries) if hasattr(bm, "entries") else None]
+        out = [len(bm.entries)]
         for attr in ("commit_bitmap", "tree_bitmap", "blob_bitmap", "tag_bitmap"):
-            b = getattr(bm, attr, None)
-            if b is not None:
-                k = 0
-                for _ in b:
-                    k += 1
-                    if k > 100000:
-                        break
-                out.append(k)
+            out.append(len(getattr(bm, attr)))
+        for sha in list(bm.iter_commits()):
+            b = bm.get_bitmap(sha)
+            out.append(None if b is None else len(b))
         return out
     site = "read:bitmap:read_bitmap"
 
@@ -1582,9 +1578,13 @@ def site_of(case):
         return "stream:" + variant[0]
     if family == "pair":
         ops = variant[1]
-        return "read:pack" + (":" + ops[0] if ops and len(ops) == 1 else "")
+        if ops and len(ops) == 1:
+            return "read:store-packed" if ops[0] == "store" else "read:pack:" + ops[0]
+        return "read:pack"
     if family == "loose":
         ops = variant[1]
-        return "read:loose" + (":" + ops[0] if ops and len(ops) == 1 else "")
+        if ops and len(ops) == 1:
+            return "read:store-loose" if ops[0] == "store" else "read:loose:ShaFile.from_path"
+        return "read:loose"
     return {"index": "read:index:Index.read", "prefs": "read:packed-refs", "cgraph": "read:commit-graph", "midx": "read:midx",
             "bitmap": "read:bitmap"}[family]
